@@ -244,7 +244,7 @@ pub fn record_c18(out: &str, seed: u64, n: usize) {
     let mut seen = HashSet::new();
     while w.n < n {
         // intended arguments
-        let k = 1 + rng.below(3);
+        let k = if rng.chance(1, 12) { 9 + rng.below(5) } else { 1 + rng.below(3) };
         let mut text = String::from(if rng.chance(1, 4) { "free.js" } else { "free" });
         for _ in 0..k {
             let mut arg = String::new();
